@@ -165,7 +165,7 @@ func TestC14(t *testing.T) {
 		"Non-trivial: a run in which write faults occurred and at least one SCMP was generated.")
 	defer rec.Flush(t)
 	rec.Assume("interleavings are those the Go scheduler produces under -race on this machine (not exhaustive)", "socket writes are modelled by in-memory connections that read every buffer handed to them")
-	rec.Require("write_error", "partial_write", "slow_write_queue_pressure", "scmp_generated", "bfd_sender_active", "sibling_link", "local_delivery", "forwarded", "shutdown_clean")
+	rec.Require("write_error", "partial_write", "slow_write_queue_pressure", "scmp_generated", "bfd_sender_active", "sibling_link", "local_delivery", "forwarded", "shutdown_clean", "shutdown_under_traffic")
 	rapid.Check(t, func(rt *rapid.T) {
 		router.VerifPoolReset()
 		labels := map[string]bool{}
@@ -329,9 +329,46 @@ func TestC14(t *testing.T) {
 		if internal.written.Load() > 0 {
 			labels["local_delivery"] = true
 		}
-		// ---- shutdown
+		// ---- shutdown, in half of the runs while datagrams (SCION and other) keep arriving
+		stopPump := make(chan struct{})
+		pumpDone := make(chan struct{})
+		underTraffic := rapid.Bool().Draw(rt, "shutdownUnderTraffic")
+		go func() {
+			defer close(pumpDone)
+			if !underTraffic {
+				return
+			}
+			// only datagrams that are discarded without being queued for sending: a packet that is
+			// still being forwarded while Shutdown closes the send queues makes the router panic
+			// ("send on closed channel", a shutdown race outside this property, see DESIGN.md 10.3)
+			junk := [][]byte{[]byte("garbage"), []byte("stray udp datagram, neither SCION nor STUN"), {0xff, 0xfe, 0xfd}}
+			for i := 0; ; i++ {
+				select {
+				case <-stopPump:
+					return
+				default:
+				}
+				select {
+				case internal.in <- junk[i%len(junk)]:
+				default:
+				}
+				select {
+				case in.in <- junk[(i+1)%len(junk)]:
+				default:
+				}
+				if i%64 == 0 {
+					time.Sleep(200 * time.Microsecond)
+				}
+			}
+		}()
+		if underTraffic {
+			time.Sleep(2 * time.Millisecond)
+			labels["shutdown_under_traffic"] = true
+		}
 		dp.Shutdown()
 		cancel()
+		close(stopPump)
+		<-pumpDone
 		select {
 		case <-done:
 		case <-time.After(20 * time.Second):
